@@ -30,11 +30,43 @@ func (l layout18) sep() string {
 	return []string{" ", "  ", "\t", "\n", "\r\n", " # c\n", "\n\n ", " ", " #\n", "#\n", " #\r\n", " # \n", " ## #\n", " # a\n # b\n"}[l.r.Intn(14)]
 }
 
+// two tokens may be written without any white space between them when they still lex as the
+// same two tokens: one side is a bracket, comma, colon or brace, or an arithmetic operator meets
+// a name, number, string or bracket ('-' and '.' are the property's exceptions and never glued)
+func canGlue(a, b string) bool {
+	if a == "" || b == "" {
+		return false
+	}
+	la, fb := a[len(a)-1], b[0]
+	punct := func(c byte) bool { return strings.IndexByte("()[],{}:", c) >= 0 }
+	word := func(c byte) bool {
+		return c == '"' || c == '`' || c == '_' || (c >= '0' && c <= '9') || (c >= 'a' && c <= 'z') || (c >= 'A' && c <= 'Z')
+	}
+	if fb == '.' || la == '.' || fb == '-' || la == '-' {
+		return false
+	}
+	if punct(la) || punct(fb) {
+		return !(la == '{' && fb == '{') // keep clear of anything that could look like another opener
+	}
+	arith := func(s string) bool { return s == "+" || s == "*" || s == "/" }
+	if arith(a) && (word(fb) || fb == '(' || fb == '[') {
+		return true
+	}
+	if arith(b) && (word(la) || la == ')' || la == ']') {
+		return true
+	}
+	return false
+}
+
 func (l layout18) join(toks []string) string {
 	var b strings.Builder
 	for i, t := range toks {
 		if i > 0 {
-			b.WriteString(l.sep())
+			if l.style >= 5 && canGlue(toks[i-1], t) && l.r.Intn(3) != 0 {
+				// no white space at all
+			} else {
+				b.WriteString(l.sep())
+			}
 		}
 		b.WriteString(t)
 	}
@@ -159,7 +191,7 @@ func (l layout18) stmtSepNonEmpty() string {
 	return []string{" ", "\n", " ; ", ";"}[l.r.Intn(4)]
 }
 
-var exprs18 = [][]string{{"n"}, {"(", "n", "+", "2", ")"}, {"n", "+", "1"}, {"s"}, {`"lit<"`}, {"xs", "[", "0", "]"}, {"len", "(", "xs", ")"}, {"n", "*", "(", "2", "+", "n", ")"}, {"!", "f"},
+var exprs18 = [][]string{{"n"}, {"(", "n", "+", "2", ")"}, {".5", "+", "1.5"}, {"2.5", "*", ".5"}, {"n", "+", "1"}, {"s"}, {`"lit<"`}, {"xs", "[", "0", "]"}, {"len", "(", "xs", ")"}, {"n", "*", "(", "2", "+", "n", ")"}, {"!", "f"},
 	{"n", "==", "3", "&&", "t"}, {"m", "[", `"a"`, "]"}, {"o.Name"}, {"0", "-", "n"}, {"s", "+", `" x"`}, {"[", "1", ",", "2", "]"}, {"{", "k", ":", "n", "}", "[", `"k"`, "]"},
 	{"o.In.Hello", "(", `"w"`, ")"}, {"o.Ins", "[", "0", "]", ".", "Name"}, {"Name"}, {"o.Ins", "[", "1", "]", ".", "Name"}, {"o.Get", "(", ")", ".", "Name"}, {"truncate", "(", "s", ",", "{", "size", ":", "3", "}", ")"}, {"n", "<=", "3", "||", "f"}, {"1.5", "+", "0.25"}, {"acc"}}
 
@@ -266,7 +298,7 @@ func init() {
 			c0 := RCase{Tmpl: canon, Binds: binds}
 			o0 := e.addRenderCase("canon", c0)
 			e.Distinct(canon)
-			for style := 1; style <= 4; style++ {
+			for style := 1; style <= 5; style++ {
 				src := layout18{e.Rng, style}.print(prog)
 				c := RCase{Tmpl: src, Binds: binds}
 				o := e.addRenderCase(fmt.Sprintf("relayout%d", style), c)
